@@ -120,7 +120,7 @@ def lstrip (s : List Nat) : List Nat := s.dropWhile isSpace
 def rstrip (s : List Nat) : List Nat := (s.reverse.dropWhile isSpace).reverse
 def strip (s : List Nat) : List Nat := rstrip (lstrip s)
 
-/-- `str.splitlines()` line boundaries -/
+/-- `str.splitlines()` line boundaries (what the loader split at before the repair of F146) -/
 def isLineBreak (c : Nat) : Bool :=
   c = 10 || c = 11 || c = 12 || c = 13 || c = 28 || c = 29 || c = 30 || c = 133 || c = 8232 || c = 8233
 
@@ -132,7 +132,19 @@ def splitLinesAux : List Nat → List Nat → List (List Nat)
     if isLineBreak c then cur.reverse :: splitLinesAux rest []
     else splitLinesAux rest (c :: cur)
 
-def splitLines (s : List Nat) : List (List Nat) := splitLinesAux s []
+/-- the loader before the repair of F146: `allowed_signers.splitlines()` -/
+def splitLinesPreFix (s : List Nat) : List (List Nat) := splitLinesAux s []
+
+/-- `str.split('\n')`; `cur` is the current line reversed -/
+def splitNlAux : List Nat → List Nat → List (List Nat)
+  | [], cur => [cur.reverse]
+  | c :: rest, cur =>
+    if c = 10 then cur.reverse :: splitNlAux rest []
+    else splitNlAux rest (c :: cur)
+
+/-- `allowed_signers.split('\n')`: a line ends at a newline and nowhere else, as in OpenSSH (a carriage return before
+    the newline is removed by the `strip()` that follows) -/
+def splitLines (s : List Nat) : List (List Nat) := splitNlAux s []
 
 /-- `line.split(None, 1)` on an already stripped line: `none` when there is only one field -/
 def splitFirst (line : List Nat) : Option (List Nat × List Nat) :=
@@ -292,21 +304,27 @@ def lineEntry (M : OptMode) (importKey : List Nat → Option Bytes) (parseTime :
                      validAfter := tm "valid-after", validBefore := tm "valid-before" }
 
 /-- `SSHAllowedSigners.load(text)`: `none` = ValueError (a raising line, or no valid entry) -/
-def loadSigners (M : OptMode) (importKey : List Nat → Option Bytes) (parseTime : List Nat → Option Int)
-    (text : List Nat) : Option (List Entry) :=
-  let rec go : List (List Nat) → Option (List Entry)
-    | [] => some []
-    | l :: ls =>
-      let line := strip l
-      if line.isEmpty ∨ line.head? = some 35 then go ls
-      else match lineEntry M importKey parseTime line with
-        | .raises => none
-        | .skip => go ls
-        | .entry e => (go ls).map (e :: ·)
-  match go (splitLines text) with
+def loadLines (M : OptMode) (importKey : List Nat → Option Bytes) (parseTime : List Nat → Option Int) :
+    List (List Nat) → Option (List Entry)
+  | [] => some []
+  | l :: ls =>
+    let line := strip l
+    if line.isEmpty ∨ line.head? = some 35 then loadLines M importKey parseTime ls
+    else match lineEntry M importKey parseTime line with
+      | .raises => none
+      | .skip => loadLines M importKey parseTime ls
+      | .entry e => (loadLines M importKey parseTime ls).map (e :: ·)
+
+def loadSignersWith (split : List Nat → List (List Nat)) (M : OptMode) (importKey : List Nat → Option Bytes)
+    (parseTime : List Nat → Option Int) (text : List Nat) : Option (List Entry) :=
+  match loadLines M importKey parseTime (split text) with
   | none => none
   | some [] => none                                         -- No valid entries found
   | some es => some es
+
+def loadSigners (M : OptMode) (importKey : List Nat → Option Bytes) (parseTime : List Nat → Option Int)
+    (text : List Nat) : Option (List Entry) :=
+  loadSignersWith splitLines M importKey parseTime text
 
 /-- `import_allowed_signers(text)` = `SSHAllowedSigners(text)`: the constructor only loads a non-empty
     string (`if allowed_signers:`), so the empty text gives an object without entries -/
